@@ -183,7 +183,8 @@ def error_on_exception(emit):
         emit.error(str(e))
     except UnicodeError as e:
         emit.error("input is not valid utf-8: %s" % e)
-    except (file_processor.SameNameError, file_processor.AmbiguousIncludeError, file_processor.IncludeDepthError) as e:
+    except (file_processor.SameNameError, file_processor.TwoNamesError, file_processor.AmbiguousIncludeError,
+            file_processor.IncludeDepthError) as e:
         emit.error(str(e))
     except EnvironmentError as e:
         emit.error("cannot read the input: %s" % e)
